@@ -18,7 +18,7 @@ REPO = os.environ.get('VERIF_REPO', '/repo')
 sys.path.insert(0, os.path.join(VERIF, 'harness'))
 
 KANI_FLAGS = ['-Z', 'stubbing', '-Z', 'unstable-options']
-TOTAL_MEM_GB = 56
+TOTAL_MEM_GB = int(os.environ.get('VERIF_TOTAL_MEM_GB', '56'))
 
 
 def log(*a):
@@ -326,7 +326,7 @@ def run_harness(h, full_name, snap, target, logdir, playback=False):
     # classification
     if timed_out:
         res['status'] = 'TIMEOUT'
-    elif re.search(r'ran out of memory|std::bad_alloc|memory exhausted', text) and not res['failed']:
+    elif re.search(r'r[au]n out of memory|std::bad_alloc|memory exhausted', text) and not res['failed']:
         res['status'] = 'MEMOUT'
         res['detail'] = 'the back end ran out of memory under the address-space cap'
     elif 'error: could not compile' in text or re.search(r'^error(\[E\d+\])?:', text, re.M) and res['verdict'] is None:
